@@ -5,7 +5,11 @@ def run(ctx):
     quick = ctx.tier == "quick"
     configs = [([g], [], 0, 0) for g in lazydrv.ALL_GROUPS]
     configs += [(["cov", "emis"], [], 0, 0), (["neut", "act"], [], 0, 0)]
-    lazydrv.process(ctx, configs, quick, only_private=False)
+    lazydrv.load_fix_flags()
+    sim = lazydrv.simulate_histories(ctx, [], 10, 4 if quick else 60, ctx.seed + 9)
+    import random
+    random.Random(ctx.seed).shuffle(sim)
+    lazydrv.process(ctx, configs, quick, only_private=False, extra_histories=sim[:(60 if quick else 2000)])
 
 def replay(ctx, path):
     return lazydrv.replay(ctx, path)
